@@ -4,6 +4,8 @@ C02 — Wire format follows the fixed 7-byte NetQASM command layout.
 import NetqasmVerif.Lemmas.Table
 import NetqasmVerif.Model.WireSpec
 import NetqasmVerif.Props.WireObligations
+import NetqasmVerif.Props.CmdLayoutObligations
+import NetqasmVerif.Lemmas.CmdUnpack
 namespace NQ.C02
 open NQ
 
@@ -150,6 +152,61 @@ theorem layout_probes_match : Gen.probes.all probeOk = true := Wire.probes_match
 theorem shapes_fit :
     (Gen.vanillaRows ++ Gen.nvRows ++ Gen.reidsRows).all
       (fun r => decide (shapeSize r.shape ≤ 6) && decide (r.opcode < 256)) = true := Wire.shapes_fit
+
+/-! ### The live ctypes layout, without assuming that ctypes is linear
+
+`Gen/CmdLayouts.lean` records, for every instruction class, the ctypes struct it really
+serialises through: the leaf fields as bit ranges taken from the ctypes DESCRIPTORS (byte offset,
+size, bit-field offset/width, signedness; nested `Register`/`Address`/`ArrayEntry`/`ArraySlice`
+flattened, padding arrays element by element) and which operand component feeds which leaf.
+`Cmd.packCmd` / `Cmd.unpackCmd` serialise with nothing but the generic struct model of
+`Model/Msg.lean` (`packNat`: every leaf's two's-complement value at its bit range of one
+little-endian number). The kernel decides that every generated layout IS the canonical
+sequential layout of the class's shape, and the theorems below show that packing / unpacking with
+the generated layout is the model codec `encodeRow` / `decodeOps` for ALL operand values / byte
+strings. What remains trusted about ctypes is only: "a field's value is stored at the offset and
+bit range its descriptor reports, two's complement, little endian" — the single-bit probes
+(`layout_probes_match`) validate that behaviourally on top. -/
+
+/-- every class's live struct layout = opcode byte, operands in declared order (register byte =
+2-bit bank + 4-bit index + 2 unused bits, imm8, little-endian int32 / address), zero padding to 7 -/
+theorem cmd_layouts_canonical : Gen.cmdLayouts.all (fun L =>
+    match rowOf CmdObl.allRows L.cls with
+    | some row => Cmd.isCanonical L row
+    | none => false) = true := CmdObl.cmd_layouts_canonical
+
+theorem cmd_layouts_cover :
+    CmdObl.allRows.all (fun r => Gen.cmdLayouts.any (fun L => L.cls == r.cls)) = true :=
+  CmdObl.cmd_layouts_cover
+
+theorem canonical_of_generated (L : Cmd.CmdLayout) (hL : L ∈ Gen.cmdLayouts) (row : Row)
+    (hrow : rowOf CmdObl.allRows L.cls = some row) : Cmd.isCanonical L row = true := by
+  have := List.all_eq_true.1 cmd_layouts_canonical L hL
+  simpa [hrow] using this
+
+/-- **`generic_pack_eq_model`**: for every instruction class of /repo and ALL operand lists (in
+range or not, right kinds or not), serialising through the generic ctypes struct model with the
+layout generated from the live descriptors gives exactly `encodeRow`: the same 7 bytes, or a
+rejection in exactly the same cases. -/
+theorem generic_pack_eq_model (L : Cmd.CmdLayout) (hL : L ∈ Gen.cmdLayouts) (row : Row)
+    (hrow : rowOf CmdObl.allRows L.cls = some row) (ops : List Operand) :
+    Cmd.packCmd L row ops = encodeRow row ops :=
+  Cmd.packCmd_of_canonical L row (canonical_of_generated L hL row hrow) ops
+
+/-- **`generic_unpack_eq_model`**: for every class and EVERY 7-byte string, reading the struct
+through the generic model with the generated layout gives the opcode byte and exactly the
+operands `decodeOps` returns. -/
+theorem generic_unpack_eq_model (L : Cmd.CmdLayout) (hL : L ∈ Gen.cmdLayouts) (row : Row)
+    (hrow : rowOf CmdObl.allRows L.cls = some row) (opb : Nat) (body : List Nat)
+    (hlen : body.length = 6) (hop : opb < 256) (hb : ∀ x ∈ body, x < 256) :
+    Cmd.unpackCmd L row (opb :: body) = (decodeOps row.shape body).map (fun os => ((opb : Int), os)) :=
+  Cmd.unpackCmd_of_canonical L row (canonical_of_generated L hL row hrow) opb body hlen hop hb
+
+-- non-vacuity: the generated layout of `set` exists, and packs `set R15 -2` to the bytes of the statement
+example : ∃ L ∈ Gen.cmdLayouts, L.cls = "core.SetInstruction" ∧ L.struct = "RegImmCommand" ∧
+    Cmd.packCmd L ⟨"core.SetInstruction", 4, "set", [.reg, .int32]⟩ [.reg ⟨0, 15⟩, .imm (-2)]
+      = some [4, 60, 254, 255, 255, 255, 0] :=
+  ⟨Gen.cmdLayouts[3]!, by decide +kernel, by decide +kernel, by decide +kernel, by decide +kernel⟩
 
 /-- non-vacuity / worked example from the statement: `set R15 -2` -/
 example : encodeRow ⟨"core.SetInstruction", 4, "set", [.reg, .int32]⟩ [.reg ⟨0, 15⟩, .imm (-2)]
